@@ -7,6 +7,9 @@ wt=/tmp/seedwt/verify-$id
 git -C /repo worktree remove --force "$wt" 2>/dev/null; rm -rf "$wt"; mkdir -p /tmp/seedwt
 git -C /repo worktree add --detach "$wt" HEAD >/dev/null 2>&1 || exit 2
 export GOPROXY=off GONOSUMDB='*' GOFLAGS=-mod=readonly
+# throw-away hard-link clone of the shared Go build cache (demos and test binaries of scratch worktrees must not pile up in it)
+shared=$(go env GOCACHE 2>/dev/null); gc=/tmp/seedwt/gocache-$id; rm -rf "$gc"
+if [ -n "$shared" ] && [ -d "$shared" ] && cp -al "$shared" "$gc" 2>/dev/null; then export GOCACHE="$gc"; fi
 echo "== demo on clean tree"; (bash "$src/demo/run.sh" "$wt" >/tmp/seedwt/$id.clean.log 2>&1; echo "rc=$?")
 git -C "$wt" status --porcelain | head -3
 git -C "$wt" apply "$src/patch.diff" || { echo "PATCH DOES NOT APPLY"; exit 1; }
@@ -14,4 +17,4 @@ echo "== files: $(git -C "$wt" diff --stat | tail -1)"
 echo "== build"; (cd "$wt" && go build ./... 2>&1 | tail -3; echo "rc=${PIPESTATUS[0]}")
 echo "== baseline"; REPO=$wt /verif/tools/baseline_check.sh 2>&1 | tail -2
 echo "== demo on patched tree"; (bash "$src/demo/run.sh" "$wt" >/tmp/seedwt/$id.patched.log 2>&1; echo "rc=$?")
-git -C /repo worktree remove --force "$wt"; rm -rf "$wt"
+git -C /repo worktree remove --force "$wt"; rm -rf "$wt" "$gc"
